@@ -137,12 +137,41 @@ def tree_queries(kind='db', config='base', tier_all=None):
     return qs
 
 
+NODE_Q = [  # (entry, unwind, tier, about)
+    ('n4_find_2', 20, 'quick'), ('n4_find_3', 20, 'quick'), ('n4_find_4', 20, 'quick'), ('n4_add_2', 20, 'quick'), ('n4_add_3', 20, 'quick'),
+    ('n4_rem_3_0', 20, 'quick'), ('n4_rem_4_1', 20, 'quick'), ('n4_rem_4_3', 20, 'quick'),
+    ('n16_find_5', 20, 'quick'), ('n16_find_11', 20, 'quick'), ('n16_find_16', 20, 'quick'), ('n16_add_5', 20, 'quick'), ('n16_add_15', 20, 'quick'),
+    ('n16_rem_6_0', 20, 'quick'), ('n16_rem_16_7', 20, 'quick'), ('n16_rem_16_15', 20, 'quick'),
+    ('n48_find', 260, 'quick'), ('n48_ends', 260, 'quick'), ('n48_rem_first', 260, 'quick'), ('n48_rem_mid', 260, 'quick'),
+    ('n48_add', 260, 'thorough'), ('n48_step', 260, 'thorough'), ('n48_bound', 260, 'thorough'),
+    ('n256_find', 260, 'quick'), ('n256_ends', 260, 'quick'), ('n256_add_remove', 260, 'quick'), ('n256_step', 260, 'thorough'), ('n256_bound', 260, 'thorough')]
+NODE_ABOUT = {'find': 'find_child + begin/last/next/prior/gte/lte', 'add': 'add_to_nonfull of an absent key byte', 'rem': 'remove of one child',
+              'ends': 'begin()/last()', 'step': 'next()/prior() from a symbolic position', 'bound': 'gte_key_byte()/lte_key_byte() of a symbolic probe', 'add_remove': 'add then remove'}
+
+
+def node_queries(config='base', tier_all=None, only_prefix=None):
+    qs = []
+    u = U('node.cpp', config)
+    sfx = '' if config == 'base' else '-' + config
+    for entry, unwind, tier in NODE_Q:
+        cls = entry.split('_')[0]
+        op = '_'.join(x for x in entry.split('_')[1:] if not x.isdigit()) or 'find'
+        heavy = tier == 'thorough'
+        qs.append(Query('node-' + entry + sfx, u, entry, unwind=unwind, flags=['--max-field-sensitivity-array-size', '512'],
+                        loop_bounds=[('^n48_add$', 20)], tier=tier_all or tier, timeout=3400 if heavy else None, mem_gb=40 if heavy else None, weight=4 if heavy else 1,
+                        about='%s node in an arbitrary valid state (all key bytes symbolic, child count fixed by the query), %s' % (cls.upper().replace('N', 'I'), NODE_ABOUT.get(op, op)),
+                        bounds={'node': cls, 'children': entry, 'key_bytes': 'all symbolic'}))
+    return qs
+
+
 def c01():
-    qs = tree_queries('db', 'base')
+    qs = tree_queries('db', 'base') + node_queries('base')
     return Check('C01', 'model_checking', qs,
                  assumptions=['switch cases on node types above the stated per-query bound are replaced by assert(false) (checked cut)',
                               'tag/untag of node pointers (basic_node_ptr::tag_ptr/type/ptr) are replaced by pointer-arithmetic equivalents with an alignment assertion'],
-                 explanation='L3: from the empty index two fully symbolic keys plus a symbolic lookup; then a catalogue of concrete trees (root leaf, I4 with 2/3/4 leaves, '
+                 explanation='L2: one inner node of each of the four size classes laid out in an arbitrary valid state (symbolic key bytes, for I48 a symbolic slot assignment, '
+                             'for I256 a symbolic presence bitmap): find_child / add_to_nonfull / remove against the byte->child map. '
+                             'L3: from the empty index two fully symbolic keys plus a symbolic lookup; then a catalogue of concrete trees (root leaf, I4 with 2/3/4 leaves, '
                              'min-size I16, two- and three-level trees with key prefixes, a two-child root that collapses onto an inode) on which ONE operation runs with a fully '
                              'symbolic 64-bit key, so every way a key can leave the tree (prefix split at any byte, leaf split at any depth, add, grow, duplicate; remove/shrink/collapse) '
                              'is decided for all 2^64 keys by one SAT query per (tree, operation). Histories longer than prelude + one symbolic operation, '
@@ -199,7 +228,7 @@ def c02():
     qs = [Query('compare', kc, 'h_compare', unwind=12, about='compare() on two buffers of symbolic length <= 4, all bytes', bounds={'len_max': 4}),
           Query('artkey-u64', kc, 'h_artkey_u64', unwind=12, about='art_key<uint64> cmp/operator[]/shift_right for all pairs of keys', bounds={'inputs': '2 x 64 bit'}),
           Query('artkey-keyview', kc, 'h_artkey_kv', unwind=12, about='art_key<key_view> cmp for byte strings of length 1..4 in two distinct buffers', bounds={'len_max': 4})]
-    qs += scan_queries('db', 'base')
+    qs += scan_queries('db', 'base') + node_queries('base')
     return Check('C02', 'model_checking', qs,
                  assumptions=['iterators are backed by the guarded hook UNODB_DETAIL_VERIF_FIXED_ITER_STACK (fixed-capacity stack, capacity 6, overflow = abort = assertion) instead of std::stack<std::deque>',
                               'iterator key_buffer push/pop are stubbed as no-ops: the buffer is write-only (get_key() reads the leaf) - checked by reading art.hpp:1345-1357',
